@@ -22,8 +22,8 @@ var (
 type decoder struct {
 	r     io.Reader
 	bytes struct {
-		limit int
-		n     int
+		limit int64
+		n     int64
 		buf   [4096]byte
 		i, j  int
 	}
@@ -128,7 +128,7 @@ func (d *decoder) decode(r io.Reader, headerOnly, fileIDOnly, crcOnly bool) erro
 
 	d.file = new(File)
 	d.file.Header = d.h
-	d.bytes.limit = int(d.h.DataSize)
+	d.bytes.limit = int64(d.h.DataSize)
 
 	if d.debug {
 		d.opts.logger.Println("header decoded:", d.h)
@@ -258,8 +258,8 @@ func (d *decoder) fill() error {
 	d.bytes.i, d.bytes.j = 0, 0
 	end := len(d.bytes.buf)
 	max := d.bytes.limit - d.bytes.n
-	if max < end {
-		end = max
+	if max < int64(end) {
+		end = int(max)
 	}
 
 	n, err := d.r.Read(d.bytes.buf[d.bytes.i:end])
@@ -302,7 +302,7 @@ func (d *decoder) readFull(p []byte) error {
 		n := copy(p, d.bytes.buf[d.bytes.i:d.bytes.j])
 		p = p[n:]
 		d.bytes.i += n
-		d.bytes.n += n
+		d.bytes.n += int64(n)
 		if len(p) == 0 {
 			break
 		}
